@@ -60,7 +60,10 @@ def cases(draw):
             'mtu_off': draw(st.sampled_from([-5, -1, 0, 1, 2, 3, 12, 23, 24, 25, 255, 256, 257, 1000])),
             'mtu_abs': draw(st.sampled_from([64, 100, 300, 1000, 9000, 70000])),
             'src': draw(strat.eids(allow_none=False)), 'dest': draw(st.sampled_from([['dtn', '//far/away'], ['ipn', 300, 70000]])),
-            'ts': [draw(st.sampled_from([1, 24, 1000, 2 ** 32, 789004000000])), draw(st.sampled_from([0, 23, 24, 300]))],
+            # (creation time 0: a source without a clock; lifetime 0: both are legal values a forwarding node must carry
+            # through unchanged, also into the fragments it makes)
+            'ts': [draw(st.sampled_from([0, 0, 1, 24, 1000, 2 ** 32, 789004000000])), draw(st.sampled_from([0, 23, 24, 300]))],
+            'lifetime': draw(st.sampled_from([3600000, 3600000, 0, 1])),
             'flags': draw(strat.flag_sets(strat.REPORT_FLAGS)),
             # a security policy at this node: the integrity / confidentiality block over the payload is added by the
             # transmit chain before the fragmentation step
@@ -154,8 +157,12 @@ def build(case):
     if case.get('unnumbered') and case.get('mode') == 'originate':
         blocks[-1]['unnumbered'] = True
     src = case['src'] if r.eid_text(case['src']) != NODE else ['dtn', '//src/']
+    ctime, lifetime = int(case['ts'][0]), int(case.get('lifetime', 3600000))
+    if case.get('mode') != 'forward':
+        # handed to send_bundle(), zero means "fill in the default"; only a received bundle carries them as values
+        ctime, lifetime = ctime or 1, lifetime or 3600000
     pri = dict(version=7, flags=flags, crc_type=case['pcrc'], dest=case['dest'], src=src, rpt=['dtn', 'none'],
-               ts=[int(case['ts'][0]), int(case['ts'][1])], lifetime=3600000, frag=frag)
+               ts=[ctime, int(case['ts'][1])], lifetime=lifetime, frag=frag)
     return {'primary': pri, 'blocks': blocks}
 
 
